@@ -2,7 +2,7 @@
    Statements only.  The advertised subset is only partly met (known findings);
    what holds is proved, the rest is refuted by evaluated witnesses. *)
 From Coq Require Import String ZArith List Bool Lia.
-From FcpV Require Import Base.Bits Schema.Types Layout.Packed Layout.PackedProofs Dbc.DbcProofs CanC.CModel CanC.CProofs.
+From FcpV Require Import Base.Bits Schema.Types Layout.Packed Layout.PackedProofs Dbc.DbcProofs CanC.CModel CanC.CProofs CanC.CBigProofs.
 Import ListNotations.
 Open Scope Z_scope.
 
@@ -48,6 +48,55 @@ Theorem c06_refuted_float_offset :
   c_decode_msg ps (c_encode_msg 10 ps vs) <> vs.
 Proof. vm_compute. split; discriminate. Qed.
 Print Assumptions c06_refuted_float_offset.
+
+(* ---- big-endian signals (`endianness: "big"`), as the runtime of can_signal_parser.c treats them ---- *)
+(* a message whose only signal is a big-endian unsigned integer of width 8/16/32/64 at bit 0: the data bytes of the frame (the low c
+   bits of the word: the bytes within the DLC) are the value's bytes in the opposite order, and the frame decodes to the value *)
+Theorem c_big_single_unsigned :
+  forall fid p v c, is_big p = true -> pstart p = 0 -> plen p = c -> kind_of p = KU c -> std_c c -> 0 <= v < 2 ^ c ->
+    let f := c_encode_msg fid [p] [v] in
+    cf_word f mod 2 ^ c = bswap c v /\ c_decode_msg [p] f = [v].
+Proof. exact c_big_single_unsigned_lemma. Qed.
+Print Assumptions c_big_single_unsigned.
+
+(* the same for a signed one (two's complement bytes); above the DLC the word may hold the sign extension of the swapped value *)
+Theorem c_big_single_signed :
+  forall fid p v c, is_big p = true -> pstart p = 0 -> plen p = c -> kind_of p = KI c -> std_c c -> - 2 ^ (c - 1) <= v < 2 ^ (c - 1) ->
+    let f := c_encode_msg fid [p] [v] in
+    cf_word f mod 2 ^ c = bswap c (v mod 2 ^ c) /\ c_decode_msg [p] f = [v].
+Proof. exact c_big_single_signed_lemma. Qed.
+Print Assumptions c_big_single_signed.
+
+(* the byte swaps are involutions on their ranges *)
+Theorem c_swaps_are_involutions :
+  (forall x, 0 <= x < 65536 -> bswap16 (bswap16 x) = x) /\ (forall x, 0 <= x < 2 ^ 32 -> bswap32 (bswap32 x) = x) /\
+  (forall x, 0 <= x < 2 ^ 64 -> bswap64 (bswap64 x) = x).
+Proof. exact (conj bswap16_invol (conj bswap32_invol bswap64_invol)). Qed.
+Print Assumptions c_swaps_are_involutions.
+
+(* in a message of several signals a big-endian signal is lost (finding c-big-endian-multi-signal): the swap is applied to the bitfield
+   after set_bitfield has shifted it; struct Msg { s0: i8, s1: u16 big }, value (0, 1) -> word 1, decoded (1, 0) *)
+Theorem c06_refuted_big_endian_offset :
+  let ps := [mkpiece "s0" (SI 8) 0 8 false; mkpiece "s1" (SU 16) 8 16 true] in
+  let f := c_encode_msg 1 ps [0; 1] in
+  cf_word f = 1 /\ c_decode_msg ps f = [1; 0].
+Proof. exact c06_refuted_big_endian_offset_lemma. Qed.
+Print Assumptions c06_refuted_big_endian_offset.
+
+(* and a negative big-endian signed signal is sign-extended over the signals after it: struct Msg { s0: i32 big, s1: i16, s3: u8 },
+   value (-1, -1, 0) -> every bit of the word set, decoded (-1, -1, 255) *)
+Theorem c06_refuted_big_endian_sign_extension :
+  let ps := [mkpiece "s0" (SI 32) 0 32 true; mkpiece "s1" (SI 16) 32 16 false; mkpiece "s3" (SU 8) 48 8 false] in
+  let f := c_encode_msg 1 ps [-1; -1; 0] in
+  cf_word f = 2 ^ 64 - 1 /\ c_decode_msg ps f = [-1; -1; 255].
+Proof. exact c06_refuted_big_endian_sign_extension_lemma. Qed.
+Print Assumptions c06_refuted_big_endian_sign_extension.
+
+Example c06_big_nonvacuous :
+  let p := mkpiece "s0" (SI 16) 0 16 true in
+  is_big p = true /\ kind_of p = KI 16 /\ c_in_range p (-2) = true /\
+  c_decode_msg [p] (c_encode_msg 7 [p] [-2]) = [-2] /\ cf_word (c_encode_msg 7 [p] [-2]) mod 2 ^ 16 = 65279.
+Proof. exact c_big_single_nonvacuous. Qed.
 
 Example c06_nonvacuous :
   let ps := [mkp "a"%string (SI 16) 0 16; mkp "m"%string (SEnumRef "Mode") 16 4; mkp "b"%string (SU 32) 20 32; mkp "c"%string (SI 8) 52 8] in
